@@ -13,6 +13,7 @@ C10 -- typed property values; sections as ordered dicts. Decided statically:
      property (and subsection) containers as the statement says
  R6  a section keeps no per-handle property table (shared stateless-handle rule)
 """
+import ast
 from .common import Ctx, describe_path
 from nixsa.px import explore
 from nixsa.px_core import Budget
@@ -113,6 +114,12 @@ def run(M, rep, tier, only=None):
         except Budget:
             raise AnalysisError("C10: too many abstract paths in _check_new_value_types (unroll 2)")
         DT = {"Bool": ("ext", "numpy.bool_"), "Int64": ("ext", "numpy.int64"), "Double": ("ext", "numpy.double"), "String": ("ext", "numpy.str_")}
+        dtc = M.classes.get("DataType")
+        for nm in list(DT):
+            # the value the analyser resolves DataType.<nm> to (String is assigned under a NumPy-version test: either branch is fine)
+            e = dtc.attrs.get(nm) if dtc else None
+            if isinstance(e, ast.Attribute) and isinstance(e.value, ast.Name):
+                DT[nm] = ("ext", "numpy." + e.attr)
 
         def pytype(v):
             if isinstance(v, bool):
